@@ -1,12 +1,53 @@
-"""Generated/Except.lean: the exception classes named by the `except` clauses that guard the receive path
-(read with `ast` from the current source) and the MRO of every exception kind of the model (read from the
-running interpreter with the repo's exception classes)."""
+"""Generated/Except.lean (property C04): facts about exception handling on the receive path, re-read from the
+current source on every run.
+
+1. SHAPE of the `try` statement that guards the frame processor in the two link-layer receive loops and in
+   `Router.gn_data_indicate` (`LoopShape`): class names of the handlers of the innermost `try` whose body calls the
+   processor, whether that `try` is inside the body of the function's `while` loop (a `try` AROUND the loop would
+   catch the exception and leave the loop), and what the catching handlers do: only allow-listed statements that cannot
+   raise, break or return (logging calls, `pass`, `continue`) = `safe`; those plus `print(...)` = `printing`
+   (raises when stdout is closed); anything else = `exits`.  Also whether the `except OSError: break` of
+   `RawLinkLayer.receive` encloses anything but the socket read.
+2. The exception TABLE: every class named by a `raise` statement in a module that the receive path can reach at module
+   granularity (static import closure from the receive-path roots through `flexstack`, plus the whole third-party
+   packages that closure imports: asn1tools, ecdsa, ...), every built-in exception class the interpreter raises
+   implicitly (all `builtins` classes derived from `Exception`), and every class ever observed by the fuzzing runs
+   (corpus/C04/observed_exceptions.json) - each with its MRO read from the running interpreter.  Props/C04 proves by
+   `decide` over this table that every entry derives from `Exception`.
+3. Sites that could raise something NOT derived from `Exception` (`raise SystemExit/KeyboardInterrupt/GeneratorExit`,
+   calls of sys.exit / exit / quit / os._exit / os.abort / _thread.interrupt_main / signal.raise_signal) in those
+   modules: Props/C04 requires the list to be empty for the flexstack modules.
+"""
 from __future__ import annotations
 
 import ast
+import builtins
+import importlib
+import importlib.util
+import json
+import os
+import sys
 
 import gen_lean
 from gen_lean import src, write_if_changed
+from common import REPO, VERIF
+
+ROOTS = [
+    "flexstack.linklayer.raw_link_layer", "flexstack.linklayer.cv2x_link_layer", "flexstack.geonet.router",
+    "flexstack.btp.router", "flexstack.security.verify_service",
+    "flexstack.facilities.ca_basic_service.cam_reception_management",
+    "flexstack.facilities.decentralized_environmental_notification_service.denm_reception_management",
+    "flexstack.facilities.vru_awareness_service.vam_reception_management",
+    "flexstack.facilities.local_dynamic_map.factory",
+]
+LOG_METHODS = {"debug", "info", "warning", "warn", "error", "exception", "critical", "log"}
+EXIT_CALLS = {("sys", "exit"), ("os", "_exit"), ("os", "abort"), ("os", "kill"), ("_thread", "interrupt_main"),
+              ("signal", "raise_signal"), (None, "exit"), (None, "quit")}
+BASE_ONLY = {"SystemExit", "KeyboardInterrupt", "GeneratorExit", "BaseException", "BaseExceptionGroup", "CancelledError"}
+OBSERVED = os.path.join(VERIF, "corpus", "C04", "observed_exceptions.json")
+
+
+# ------------------------------------------------------------------------------------------------ try-statement shape
 
 
 def _names(t):
@@ -30,49 +71,401 @@ def _calls(node, attr):
     return False
 
 
-def catches_around(path, cls, func, callee):
-    """union over all `try` statements in cls.func whose BODY calls `callee`: class names of their handlers.
-    Returns [] when the call is not inside any try."""
+def _is_logging_call(call):
+    """`<anything>.warning(...)` etc. where the receiver mentions a logger: logging.getLogger(..).warning,
+    self.logging.warning, LOGGER.error, logging.warning"""
+    f = call.func
+    if not (isinstance(f, ast.Attribute) and f.attr in LOG_METHODS):
+        return False
+    txt = ast.unparse(f.value).lower()
+    return "logg" in txt
+
+
+def _arg_is_plain(e):
+    """argument expressions of a report call that cannot raise by themselves: names, constants, attribute reads of
+    names, `type(e).__name__`, string concatenation / %-free formatting of those.  `str(e)` counts as plain."""
+    if isinstance(e, (ast.Name, ast.Constant)):
+        return True
+    if isinstance(e, ast.Attribute):
+        return _arg_is_plain(e.value)
+    if isinstance(e, ast.BinOp) and isinstance(e.op, ast.Add):
+        return _arg_is_plain(e.left) and _arg_is_plain(e.right)
+    if isinstance(e, ast.Call) and isinstance(e.func, ast.Name) and e.func.id in ("str", "type", "repr") and not e.keywords:
+        return all(_arg_is_plain(a) for a in e.args)
+    if isinstance(e, ast.JoinedStr):
+        return all(isinstance(v, ast.Constant) or (isinstance(v, ast.FormattedValue) and _arg_is_plain(v.value))
+                   for v in e.values)
+    return False
+
+
+def handler_kind(handlers):
+    """'safe' | 'printing' | 'exits' for the union of the given except-handler bodies"""
+    kind = "safe"
+    for h in handlers:
+        for stmt in h.body:
+            if isinstance(stmt, (ast.Pass, ast.Continue)):
+                continue
+            if isinstance(stmt, ast.Expr) and isinstance(stmt.value, ast.Constant):      # doc string / ellipsis
+                continue
+            if isinstance(stmt, ast.Expr) and isinstance(stmt.value, ast.Call):
+                c = stmt.value
+                plain = all(_arg_is_plain(a) for a in c.args) and all(_arg_is_plain(k.value) for k in c.keywords)
+                if _is_logging_call(c) and plain:
+                    continue
+                if isinstance(c.func, ast.Name) and c.func.id == "print" and plain:
+                    kind = "printing" if kind == "safe" else kind
+                    continue
+            return "exits"
+    return kind
+
+
+def _find_func(path, cls, func):
     tree = ast.parse(src(path))
     for c in ast.walk(tree):
         if isinstance(c, ast.ClassDef) and c.name == cls:
             for fn in c.body:
                 if isinstance(fn, ast.FunctionDef) and fn.name == func:
-                    out = []
-                    for t in ast.walk(fn):
-                        if not (isinstance(t, ast.Try) and any(_calls(s, callee) for s in t.body)):
-                            continue
-                        # innermost try only: skip when a nested try inside the body already contains the call
-                        nested = [n for s in t.body for n in ast.walk(s) if isinstance(n, ast.Try)]
-                        if any(any(_calls(s, callee) for s in n.body) for n in nested):
-                            continue
-                        for h in t.handlers:
-                            # a handler that re-raises, breaks or returns ends the loop: it does not "catch and continue"
-                            if any(isinstance(x, (ast.Raise, ast.Break, ast.Return)) for x in ast.walk(h)):
-                                continue
-                            out += _names(h.type)
-                    return sorted(set(out))
+                    return fn
     raise KeyError(f"{cls}.{func} not found in {path}")
+
+
+def _ancestors(root):
+    par = {}
+    for n in ast.walk(root):
+        for ch in ast.iter_child_nodes(n):
+            par[ch] = n
+    return par
+
+
+def loop_shape(path, cls, func, callee):
+    """shape of the innermost `try` of cls.func whose BODY (not handlers / else / finally) calls `callee`.
+    No such try: catches = [], handler = exits."""
+    fn = _find_func(path, cls, func)
+    par = _ancestors(fn)
+    best = None
+    for t in ast.walk(fn):
+        if not (isinstance(t, ast.Try) and any(_calls(s, callee) for s in t.body)):
+            continue
+        nested = [n for s in t.body for n in ast.walk(s) if isinstance(n, ast.Try)]
+        if any(any(_calls(s, callee) for s in n.body) for n in nested):
+            continue                                    # an inner try already contains the call
+        best = t
+    if best is None:
+        return {"catches": [], "inWhile": False, "handler": "exits", "outer": []}
+    # is the try inside the BODY of a while loop of this function (not its `else`)?
+    in_while, node = False, best
+    while node in par:
+        p = par[node]
+        if isinstance(p, ast.While) and any(node is s or node in list(ast.walk(s)) for s in p.body):
+            in_while = True
+            break
+        if isinstance(p, (ast.FunctionDef, ast.AsyncFunctionDef, ast.Lambda)) and p is not fn:
+            break
+        node = p
+    # handlers in source order: the first whose class matches wins, so a handler that exits shadows later ones;
+    # `catches` = names of the leading run of handlers up to (not including) the first non-continuing handler is too
+    # subtle for a fact - instead ALL handlers of this try must be of the reported kind.
+    catches = sorted({n for h in best.handlers for n in _names(h.type)})
+    kind = handler_kind(best.handlers)
+    if best.finalbody and any(isinstance(x, (ast.Raise, ast.Break, ast.Return)) for s in best.finalbody for x in ast.walk(s)):
+        kind = "exits"
+    # enclosing try statements between this try and the while loop (their handlers see what the inner handlers raise)
+    outer, node = [], best
+    while node in par:
+        p = par[node]
+        if isinstance(p, ast.Try) and any(node is s or node in list(ast.walk(s)) for s in p.body):
+            outer.append({"catches": sorted({n for h in p.handlers for n in _names(h.type)}),
+                          "handler": handler_kind(p.handlers)})
+        if p is fn:
+            break
+        node = p
+    return {"catches": catches, "inWhile": in_while, "handler": kind, "outer": outer}
+
+
+def catches_around(path, cls, func, callee):
+    """(kept for older callers) class names of the continuing handlers of the innermost try around the call"""
+    sh = loop_shape(path, cls, func, callee)
+    return sh["catches"] if sh["handler"] != "exits" else []
+
+
+# ------------------------------------------------------------------------------------------------ raise table
+
+
+def _module_file(name):
+    """source file of module `name` WITHOUT importing it (flexstack from $FLEXSTACK_REPO, others from sys.path)"""
+    if name == "flexstack" or name.startswith("flexstack."):
+        base = os.path.join(REPO, "src", *name.split("."))
+        for cand in (base + ".py", os.path.join(base, "__init__.py")):
+            if os.path.exists(cand):
+                return cand
+        return None
+    try:
+        spec = importlib.util.find_spec(name)
+    except (ImportError, ValueError, AttributeError):
+        return None
+    if spec is None or not spec.origin or not spec.origin.endswith(".py"):
+        return None
+    return spec.origin
+
+
+def _imports(name, path):
+    """modules statically imported by the module `name` at `path` (absolute names)"""
+    out = set()
+    try:
+        tree = ast.parse(open(path, encoding="utf-8").read())
+    except (SyntaxError, UnicodeDecodeError):
+        return out
+    is_pkg = os.path.basename(path) == "__init__.py"
+    pkg = name if is_pkg else name.rpartition(".")[0]
+    for n in ast.walk(tree):
+        if isinstance(n, ast.Import):
+            out.update(a.name for a in n.names)
+        elif isinstance(n, ast.ImportFrom):
+            if n.level:
+                parts = pkg.split(".")
+                base = ".".join(parts[:len(parts) - (n.level - 1)]) if n.level > 1 else pkg
+                mod = (base + "." + n.module) if n.module else base
+            else:
+                mod = n.module or ""
+            if mod:
+                out.add(mod)
+                out.update(mod + "." + a.name for a in n.names if a.name != "*")
+    return out
+
+
+def reachable_modules():
+    """(flexstack modules in the static import closure of the receive-path roots, third-party top-level packages)"""
+    stdlib = set(sys.stdlib_module_names)
+    seen, third, todo = {}, set(), list(ROOTS)
+    while todo:
+        m = todo.pop()
+        if m in seen:
+            continue
+        top = m.split(".")[0]
+        if top in stdlib or top == "__future__":
+            continue
+        if top != "flexstack":
+            third.add(top)
+            continue
+        f = _module_file(m)
+        if f is None:
+            continue                                        # `from pkg import name` where name is not a module
+        seen[m] = f
+        par = m.rpartition(".")[0]
+        if par:
+            todo.append(par)                                # importing a.b runs a/__init__
+        todo.extend(_imports(m, f))
+    # third-party packages: whole package, plus the third-party packages they import
+    files3, todo3, seen3 = {}, sorted(third), set()
+    while todo3:
+        top = todo3.pop()
+        if top in seen3 or top in stdlib:
+            continue
+        seen3.add(top)
+        f = _module_file(top)
+        if f is None:
+            continue
+        if os.path.basename(f) == "__init__.py":
+            root = os.path.dirname(f)
+            for dp, dn, fns in os.walk(root):
+                dn[:] = [d for d in dn if d not in ("__pycache__", "tests", "test")]
+                for fn in fns:
+                    if fn.endswith(".py"):
+                        rel = os.path.relpath(os.path.join(dp, fn), os.path.dirname(root))[:-3].replace(os.sep, ".")
+                        if rel.endswith(".__init__"):
+                            rel = rel[:-9]
+                        if ".test_" in rel or rel.split(".")[-1].startswith("test_"):
+                            continue
+                        files3[rel] = os.path.join(dp, fn)
+        else:
+            files3[top] = f
+        for m, p in list(files3.items()):
+            if m.split(".")[0] == top:
+                for i in _imports(m, p):
+                    t = i.split(".")[0]
+                    if t not in stdlib and t != "flexstack" and t not in seen3 and t != "__future__":
+                        todo3.append(t)
+    return seen, files3
+
+
+def _qual(cls):
+    return f"{cls.__module__}.{cls.__qualname__}"
+
+
+def _resolve(modname, expr, cache):
+    """class object named by `expr` in module `modname` (imports the module), or None"""
+    if modname not in cache:
+        try:
+            cache[modname] = importlib.import_module(modname)
+        except BaseException:  # noqa: BLE001 - optional native back-ends, missing extras
+            cache[modname] = None
+    mod = cache[modname]
+    if mod is None:
+        return None
+    try:
+        parts = ast.unparse(expr).split(".")
+        obj = getattr(mod, parts[0]) if hasattr(mod, parts[0]) else getattr(builtins, parts[0])
+        for p in parts[1:]:
+            obj = getattr(obj, p)
+    except Exception:  # noqa: BLE001
+        return None
+    return obj if isinstance(obj, type) else None
+
+
+def scan_raises(modules):
+    """-> (classes {qualname: class}, unresolved [site], base_only_sites [site]) for {module name: file}"""
+    classes, unresolved, base_sites, cache = {}, [], [], {}
+    for name in sorted(modules):
+        path = modules[name]
+        try:
+            tree = ast.parse(open(path, encoding="utf-8").read())
+        except (SyntaxError, UnicodeDecodeError):
+            continue
+        bound = set()      # names bound by `except X as e` (re-raising them raises an already raised exception)
+        for n in ast.walk(tree):
+            if isinstance(n, ast.ExceptHandler) and n.name:
+                bound.add(n.name)
+        for n in ast.walk(tree):
+            site = f"{name}:{getattr(n, 'lineno', 0)}"
+            if isinstance(n, ast.Raise) and n.exc is not None:
+                e = n.exc.func if isinstance(n.exc, ast.Call) else n.exc
+                if isinstance(e, ast.Name) and e.id in bound and not isinstance(n.exc, ast.Call):
+                    continue
+                last = e.attr if isinstance(e, ast.Attribute) else (e.id if isinstance(e, ast.Name) else None)
+                if last in BASE_ONLY:
+                    base_sites.append(f"{site} raise {last}")
+                    continue
+                cls = _resolve(name, e, cache) if isinstance(e, (ast.Name, ast.Attribute)) else None
+                if cls is not None and issubclass(cls, BaseException):
+                    classes[_qual(cls)] = cls
+                else:
+                    unresolved.append(f"{site} raise {ast.unparse(e)[:40]}")
+            elif isinstance(n, ast.Call):
+                f = n.func
+                key = None
+                if isinstance(f, ast.Attribute) and isinstance(f.value, ast.Name):
+                    key = (f.value.id, f.attr)
+                elif isinstance(f, ast.Name):
+                    key = (None, f.id)
+                if key in EXIT_CALLS:
+                    base_sites.append(f"{site} call {ast.unparse(f)}")
+    return classes, unresolved, base_sites
+
+
+def builtin_exception_classes():
+    out = {}
+    for n in dir(builtins):
+        o = getattr(builtins, n)
+        if isinstance(o, type) and issubclass(o, Exception):
+            out[_qual(o)] = o
+    return out
+
+
+def observed_classes():
+    """classes recorded by the fuzzing runs: ["module:qualname", ...]"""
+    out = {}
+    if not os.path.exists(OBSERVED):
+        return out
+    for item in json.load(open(OBSERVED)).get("classes", []):
+        mod, _, qn = item.partition(":")
+        try:
+            obj = importlib.import_module(mod)
+            for p in qn.split("."):
+                obj = getattr(obj, p)
+        except Exception:  # noqa: BLE001 - class disappeared: nothing to add
+            continue
+        if isinstance(obj, type) and issubclass(obj, BaseException):
+            out[_qual(obj)] = obj
+    return out
+
+
+def raise_table():
+    """-> dict(table=[(qualname, [mro names])], unresolved=[...], flex_base_sites=[...], third_base_sites=[...],
+    n_flex_modules, n_third_modules)"""
+    flex, third = reachable_modules()
+    c1, u1, b1 = scan_raises(flex)
+    c3, u3, b3 = scan_raises(third)
+    classes = {}
+    classes.update(builtin_exception_classes())
+    classes.update(c3)
+    classes.update(c1)
+    classes.update(observed_classes())
+    table = [(q, [m.__name__ for m in classes[q].__mro__]) for q in sorted(classes)]
+    return {"table": table, "unresolved": sorted(u1) + sorted(u3), "flex_base_sites": sorted(b1),
+            "third_base_sites": sorted(b3), "n_flex_modules": len(flex), "n_third_modules": len(third),
+            "flex_classes": sorted(c1), "third_classes": sorted(c3)}
+
+
+_TABLE_CACHE = {}
+
+
+def table_names():
+    """set of qualified class names of the current table (for the harness: is an observed class covered?)"""
+    if "t" not in _TABLE_CACHE:
+        _TABLE_CACHE["t"] = raise_table()
+    return {q for q, _ in _TABLE_CACHE["t"]["table"]}, _TABLE_CACHE["t"]
+
+
+# ------------------------------------------------------------------------------------------------ Lean output
 
 
 def lean_str_list(xs):
     return "[" + ", ".join('"' + x + '"' for x in xs) + "]"
 
 
+def lean_shape(name, sh):
+    return (f"def {name} : LoopShape := {{ catches := {lean_str_list(sh['catches'])}, "
+            f"inWhile := {'true' if sh['inWhile'] else 'false'}, handler := .{sh['handler']} }}\n")
+
+
+def recv_guard_only(path="linklayer/raw_link_layer.py"):
+    """True iff every `try` of RawLinkLayer.receive that has a handler leaving the loop (break/return/raise) has a body
+    consisting of the socket read alone (`<x> = self.sock.recv(..)`): nothing raised while a frame is processed can
+    reach such a handler."""
+    fn = _find_func(path, "RawLinkLayer", "receive")
+    for t in ast.walk(fn):
+        if not isinstance(t, ast.Try):
+            continue
+        leaving = [h for h in t.handlers if any(isinstance(x, (ast.Break, ast.Return, ast.Raise)) for x in ast.walk(h))]
+        if not leaving:
+            continue
+        ok = (len(t.body) == 1 and isinstance(t.body[0], (ast.Assign, ast.Expr)) and _calls(t.body[0], "recv")
+              and not _calls(t.body[0], "receive_callback"))
+        if not ok:
+            return False
+    return True
+
+
 @gen_lean.register(props=["C04"])
 def gen_except():
     from flexstack.geonet.exceptions import DecodeError, DecapError
-    raw = catches_around("linklayer/raw_link_layer.py", "RawLinkLayer", "receive", "receive_callback")
-    cv2x = catches_around("linklayer/cv2x_link_layer.py", "PythonCV2XLinkLayer", "callback_handler_loop", "receive_callback")
-    gn = catches_around("geonet/router.py", "Router", "gn_data_indicate", "process_basic_header")
+    raw = loop_shape("linklayer/raw_link_layer.py", "RawLinkLayer", "receive", "receive_callback")
+    cv2x = loop_shape("linklayer/cv2x_link_layer.py", "PythonCV2XLinkLayer", "callback_handler_loop", "receive_callback")
+    gn = loop_shape("geonet/router.py", "Router", "gn_data_indicate", "process_basic_header")
     kinds = {"decodeError": DecodeError, "decapError": DecapError, "valueError": ValueError,
-             "notImplementedError": NotImplementedError, "zeroDivisionError": ZeroDivisionError, "opaque": Exception}
+             "notImplementedError": NotImplementedError, "zeroDivisionError": ZeroDivisionError,
+             "stdoutError": BrokenPipeError}
+    _TABLE_CACHE.pop("t", None)
+    _, t = table_names()
     body = "import FlexModel.Geo.RecvPath\nnamespace Generated.Except\nopen FlexModel.Geo.Recv\n"
-    body += f"def rawLoopCatches : List String := {lean_str_list(raw)}\n"
-    body += f"def cv2xLoopCatches : List String := {lean_str_list(cv2x)}\n"
-    body += f"def gnIndicateCatches : List String := {lean_str_list(gn)}\n"
+    body += lean_shape("rawLoop", raw) + lean_shape("cv2xLoop", cv2x) + lean_shape("gnIndicate", gn)
+    body += f"/-- every try of RawLinkLayer.receive with a handler that leaves the loop encloses the socket read only -/\n"
+    body += f"def rawRecvGuardOnly : Bool := {'true' if recv_guard_only() else 'false'}\n"
+    body += (f"/-- {len(t['table'])} classes: raise statements of {t['n_flex_modules']} flexstack modules (import closure of the "
+             f"receive path) and {t['n_third_modules']} third-party modules, builtins derived from Exception, observed -/\n")
+    body += "def raiseTable : List (String × List String) := [\n"
+    body += ",\n".join(f'  ("{q}", {lean_str_list(m)})' for q, m in t["table"]) + "]\n"
+    body += f"def flexRaiseClasses : List String := {lean_str_list(t['flex_classes'])}\n"
+    body += "/-- sites in the flexstack modules that raise / call something not derived from Exception -/\n"
+    body += f"def flexBaseOnlySites : List String := {lean_str_list(t['flex_base_sites'])}\n"
+    body += f"def thirdPartyBaseOnlySites : List String := {lean_str_list(t['third_base_sites'])}\n"
+    body += f"/-- raise statements whose class is computed at run time (informational; covered only by observation) -/\n"
+    body += f"def unresolvedRaiseSites : Nat := {len(t['unresolved'])}\n"
+    body += "def defaultClass : String × List String := (\"builtins.Exception\", [\"Exception\", \"BaseException\", \"object\"])\n"
     body += "def mro : Exc → List String\n"
     for k, c in kinds.items():
         body += f"  | .{k} => {lean_str_list([m.__name__ for m in c.__mro__])}\n"
+    body += "  | .listed i => (raiseTable.getD i defaultClass).2\n"
     body += "end Generated.Except\n"
     write_if_changed("Except.lean", body)
+    return None
